@@ -206,6 +206,57 @@ theorem item_facts_bracket (o c : Char) (E : List Char) (ho : isOpen o = true) (
     rcases hc with ((h | h) | h) | h <;> subst h <;> decide
   refine ⟨Bal.bracket ho hc hE, ⟨⟨o, E ++ [c], rfl, hoo.2⟩, ⟨o :: E, c, by simp, okTop_not_space c hcc⟩⟩, topHeads_bracket okTop o c E ho hc hoo.1 hcc hE⟩
 
+
+/-- characters that may stand at level 0 inside a power `item^exponent` -/
+def notSp (c : Char) : Bool := !(c == ' ')
+
+theorem topHeads_mono (ok1 ok2 : Char → Bool) (h : ∀ c, ok1 c = true → ok2 c = true) : ∀ (T : List Char) (lvl : Int),
+    topHeads ok1 T lvl = true → topHeads ok2 T lvl = true := by
+  intro T
+  induction T with
+  | nil => intro _ _; rfl
+  | cons c cs ih =>
+    intro lvl ht
+    simp only [topHeads, Bool.and_eq_true, Bool.or_eq_true] at ht ⊢
+    exact ⟨ht.1.elim Or.inl (fun h1 => Or.inr (h c h1)), ih _ ht.2⟩
+
+/-- ... of a power (an item, possibly followed by `^` and an exponent) -/
+structure PowFacts (p : List Char) : Prop where
+  bal : Bal p
+  ends : Ends p
+  top : topHeads notSp p 0 = true
+
+theorem okTop_notSp (c : Char) (h : okTop c = true) : notSp c = true := by
+  simp only [okTop, notSp, Bool.not_eq_true', Bool.or_eq_false_iff] at h ⊢; exact h.1
+
+theorem ItemFacts.pow {p : List Char} (h : ItemFacts p) : PowFacts p :=
+  ⟨h.bal, h.ends, topHeads_mono okTop notSp okTop_notSp p 0 h.top⟩
+
+theorem PowFacts.sep {p : List Char} (h : PowFacts p) (ms : List Matcher) (hms : ms = plusMinus ∨ ms = slash) (X : List Char) :
+    topAll (noMatch ms) X p 0 = true :=
+  topAll_of_heads _ notSp X (fun c tl hc => sep_noMatch_head ms hms c tl (by simpa [notSp] using hc)) p 0 h.top
+
+theorem PowFacts.term {p : List Char} (h : PowFacts p) : TermFacts p := ⟨h.bal, fun ms hms X => h.sep ms hms X⟩
+
+/-- a blank followed by a power is separator-free text -/
+theorem TermFacts.space_pow {p : List Char} (h : PowFacts p) : TermFacts (' ' :: p) := by
+  refine ⟨Bal.plain_cons (by decide) h.bal, ?_⟩
+  intro ms hms X
+  have hsep := h.sep ms hms X
+  obtain ⟨c, cs, hp, hc⟩ := h.ends.head
+  show ((lvlClose ' ' 0 != 0 || noMatch ms (' ' :: p ++ X)) && topAll (noMatch ms) X p (lvlOpen ' ' (lvlClose ' ' 0))) = true
+  have : lvlOpen ' ' (lvlClose ' ' 0) = 0 := by decide
+  rw [this, hsep, hp]
+  simp only [Bool.and_true, Bool.or_eq_true]
+  exact Or.inr (sep_noMatch_space ms hms c _ hc)
+
+/-- ... of a fraction: no level-0 ` + ` / ` - ` -/
+structure FracFacts (p : List Char) : Prop where
+  bal : Bal p
+  sep : ∀ X, topAll (noMatch plusMinus) X p 0 = true
+
+theorem TermFacts.frac {p : List Char} (h : TermFacts p) : FracFacts p := ⟨h.bal, fun X => h.sep plusMinus (Or.inl rfl) X⟩
+
 theorem Ends.append_mid {a b : List Char} (mid : List Char) (ha : Ends a) (hb : Ends b) : Ends (a ++ mid ++ b) := by
   obtain ⟨c, cs, rfl, hc⟩ := ha.head
   obtain ⟨init, d, rfl, hd⟩ := hb.last
@@ -236,8 +287,10 @@ theorem TermFacts.space_item {p : List Char} (h : ItemFacts p) : TermFacts (' ' 
 def Facts (k : Kind) (t : Src) : Prop :=
   match k with
   | .item => ItemFacts t.print
+  | .power => PowFacts t.print
   | .ptail => TermFacts t.print ∧ ∀ A, Ends A → Ends (A ++ t.print)
   | .term => TermFacts t.print ∧ Ends t.print
+  | .frac => FracFacts t.print ∧ Ends t.print
   | .ttail => Bal t.print ∧ ∀ A, Ends A → Ends (A ++ t.print)
   | .expr => Bal t.print
 
@@ -282,44 +335,135 @@ theorem var_item (name idx : List Char) (hn : nameOK name = true) (hi : idx.all 
     · subst h; decide
     · have := idxChar_facts x ((List.all_eq_true.mp hi) x h); simp [this.1, this.2]
 
+theorem digitsOK_iff (ds : List Nat) (h : digitsOK ds = true) : ds.isEmpty = false ∧ ds.all (· < 10) = true := by
+  simpa [digitsOK] using h
+
+/-- the text of a signed integer exponent -/
+def expoText (neg : Bool) (ds : List Nat) : List Char := (if neg then ['-'] else []) ++ ds.map digitChar
+
+theorem expoText_plain (neg : Bool) (ds : List Nat) (h : digitsOK ds = true) :
+    (expoText neg ds).all (fun x => plain x && okTop x) = true ∧
+    (∃ c cs, expoText neg ds = c :: cs ∧ (c == ' ') = false ∧ (isDigit c || c == '-') = true) ∧
+    (∃ init c, expoText neg ds = init ++ [c] ∧ (c == ' ') = false) := by
+  obtain ⟨hne, hall⟩ := digitsOK_iff ds h
+  have hd := digits_item ds hne hall
+  have hdall : (ds.map digitChar).all (fun x => plain x && okTop x) = true := by
+    rw [List.all_eq_true]; intro x hx
+    rw [List.mem_map] at hx; obtain ⟨e, he, rfl⟩ := hx
+    have := digitChar_facts e (by simpa using (List.all_eq_true.mp hall) e he)
+    simp [this.2.1, this.2.2.1]
+  obtain ⟨init, c, hlast, hc⟩ := hd.ends.last
+  match ds, hne with
+  | d :: ds', _ =>
+    have hdf := digitChar_facts d (by simpa using (List.all_eq_true.mp hall) d List.mem_cons_self)
+    cases neg with
+    | false =>
+      refine ⟨by simpa [expoText] using hdall, ⟨digitChar d, ds'.map digitChar, by simp [expoText], okTop_not_space _ hdf.2.2.1, by simp [hdf.1]⟩,
+        ⟨init, c, by simpa [expoText] using hlast, hc⟩⟩
+    | true =>
+      refine ⟨?_, ⟨'-', (d :: ds').map digitChar, by simp [expoText], by decide, by decide⟩, ⟨'-' :: init, c, ?_, hc⟩⟩
+      · simp only [expoText, if_true, List.singleton_append, List.all_cons, hdall, Bool.and_true]; decide
+      · simp only [expoText, if_true, List.singleton_append, hlast, List.cons_append, List.nil_append]
+
 theorem print_facts (t : Src) : ∀ k, t.ok k = true → Facts k t := by
   induction t with
   | num ds =>
-    intro k h; cases k <;> simp only [Src.ok, Bool.false_eq_true, Bool.and_eq_true, Bool.not_eq_true'] at h
-    exact digits_item ds h.1 h.2
+    intro k h; cases k <;> simp only [Src.ok, Bool.false_eq_true] at h
+    · exact digits_item ds (digitsOK_iff ds h).1 (digitsOK_iff ds h).2
+    · exact (digits_item ds (digitsOK_iff ds h).1 (digitsOK_iff ds h).2).pow
   | var name idx =>
     intro k h; cases k <;> simp only [Src.ok, Bool.false_eq_true, Bool.and_eq_true] at h
-    exact var_item name idx h.1 h.2
+    · exact var_item name idx h.1 h.2
+    · exact (var_item name idx h.1 h.2).pow
   | paren e ih =>
     intro k h; cases k <;> simp only [Src.ok, Bool.false_eq_true] at h
-    exact item_facts_bracket '(' ')' _ (by decide) (by decide) (ih .expr h)
+    · exact item_facts_bracket '(' ')' _ (by decide) (by decide) (ih .expr h)
+    · exact (item_facts_bracket '(' ')' _ (by decide) (by decide) (ih .expr h)).pow
   | jump e ih =>
     intro k h; cases k <;> simp only [Src.ok, Bool.false_eq_true] at h
-    exact item_facts_bracket '[' ']' _ (by decide) (by decide) (ih .expr h)
+    · exact item_facts_bracket '[' ']' _ (by decide) (by decide) (ih .expr h)
+    · exact (item_facts_bracket '[' ']' _ (by decide) (by decide) (ih .expr h)).pow
   | mean e ih =>
     intro k h; cases k <;> simp only [Src.ok, Bool.false_eq_true] at h
-    exact item_facts_bracket '{' '}' _ (by decide) (by decide) (ih .expr h)
+    · exact item_facts_bracket '{' '}' _ (by decide) (by decide) (ih .expr h)
+    · exact (item_facts_bracket '{' '}' _ (by decide) (by decide) (ih .expr h)).pow
+  | powInt b neg ds ih =>
+    intro k h; cases k <;> simp only [Src.ok, Bool.false_eq_true, Bool.and_eq_true] at h
+    have hb : ItemFacts b.print := ih .item h.1
+    obtain ⟨hpl, ⟨c, cs, hhead, hcsp, _⟩, ⟨init, cl, hlast, hcl⟩⟩ := expoText_plain neg ds h.2
+    have hpl1 : (expoText neg ds).all plain = true := by
+      rw [List.all_eq_true] at hpl ⊢; intro x hx; have := hpl x hx; simp only [Bool.and_eq_true] at this; exact this.1
+    have hpl2 : (expoText neg ds).all notSp = true := by
+      rw [List.all_eq_true] at hpl ⊢; intro x hx; have := hpl x hx; simp only [Bool.and_eq_true] at this; exact okTop_notSp x this.2
+    obtain ⟨c0, cs0, hb0, hc0⟩ := hb.ends.head
+    show PowFacts (b.print ++ '^' :: expoText neg ds)
+    refine ⟨hb.bal.append (Bal.plain_cons (by decide) (Bal.of_plain _ hpl1)), ⟨⟨c0, cs0 ++ '^' :: expoText neg ds, by simp [hb0], hc0⟩,
+      ⟨b.print ++ '^' :: init, cl, by simp [hlast], hcl⟩⟩, ?_⟩
+    rw [topHeads_append, hb.bal.2]
+    simp only [Bool.and_eq_true]
+    refine ⟨hb.pow.top, ?_⟩
+    exact topHeads_all notSp _ _ (by simp only [List.all_cons, hpl2, Bool.and_true]; decide)
+  | powExpr b e ihb ihe =>
+    intro k h; cases k <;> simp only [Src.ok, Bool.false_eq_true, Bool.and_eq_true] at h
+    have hb : ItemFacts b.print := ihb .item h.1
+    have he : ItemFacts ('(' :: e.print ++ [')']) := item_facts_bracket '(' ')' _ (by decide) (by decide) (ihe .expr h.2)
+    obtain ⟨c0, cs0, hb0, hc0⟩ := hb.ends.head
+    obtain ⟨init, cl, hlast, hcl⟩ := he.ends.last
+    show PowFacts (b.print ++ '^' :: ('(' :: e.print ++ [')']))
+    refine ⟨hb.bal.append (Bal.plain_cons (by decide) he.bal), ⟨⟨c0, cs0 ++ '^' :: ('(' :: e.print ++ [')']), by simp [hb0], hc0⟩,
+      ⟨b.print ++ '^' :: init, cl, by rw [hlast]; simp, hcl⟩⟩, ?_⟩
+    rw [topHeads_append, hb.bal.2]
+    simp only [Bool.and_eq_true]
+    refine ⟨hb.pow.top, ?_⟩
+    show ((lvlClose '^' (0 + 0) != 0 || notSp '^') && topHeads notSp ('(' :: e.print ++ [')']) (lvlOpen '^' (lvlClose '^' (0 + 0)))) = true
+    have : lvlOpen '^' (lvlClose '^' (0 + 0)) = 0 := by decide
+    rw [this, he.pow.top]; decide
   | prod f tail ihf iht =>
     intro k h; cases k <;> simp only [Src.ok, Bool.false_eq_true, Bool.and_eq_true] at h
-    have hf : ItemFacts f.print := ihf .item h.1
-    have ht := iht .ptail h.2
-    exact ⟨hf.term.append ht.1, ht.2 _ hf.ends⟩
+    · have hf : PowFacts f.print := ihf .power h.1
+      have ht := iht .ptail h.2
+      exact ⟨hf.term.append ht.1, ht.2 _ hf.ends⟩
+    · have hf : PowFacts f.print := ihf .power h.1
+      have ht := iht .ptail h.2
+      exact ⟨(hf.term.append ht.1).frac, ht.2 _ hf.ends⟩
   | pnil =>
     intro k h; cases k <;> simp only [Src.ok, Bool.false_eq_true] at h
     exact ⟨⟨Bal.nil, fun _ _ _ => rfl⟩, fun A hA => by simpa [Src.print] using hA⟩
   | pcons f tail ihf iht =>
     intro k h; cases k <;> simp only [Src.ok, Bool.false_eq_true, Bool.and_eq_true] at h
-    have hf : ItemFacts f.print := ihf .item h.1
+    have hf : PowFacts f.print := ihf .power h.1
     have ht := iht .ptail h.2
     refine ⟨?_, ?_⟩
-    · have := (TermFacts.space_item hf).append ht.1
+    · have := (TermFacts.space_pow hf).append ht.1
       simpa [Src.print] using this
     · intro A hA
       have := ht.2 _ (hA.append_space hf.ends)
       simpa [Src.print] using this
+  | frac n d ihn ihd =>
+    intro k h; cases k <;> simp only [Src.ok, Bool.false_eq_true, Bool.and_eq_true] at h
+    have hn := ihn .term h.1
+    have hd := ihd .term h.2
+    obtain ⟨c, cs, hdh, hc⟩ := hd.2.head
+    refine ⟨⟨hn.1.bal.append ((Bal.of_plain [' ', '/', ' '] (by decide)).append hd.1.bal), ?_⟩, ?_⟩
+    · intro X
+      show topAll (noMatch plusMinus) X (n.print ++ ([' ', '/', ' '] ++ d.print)) 0 = true
+      rw [topAll_append, hn.1.bal.2]
+      simp only [Bool.and_eq_true]
+      refine ⟨hn.1.sep plusMinus (Or.inl rfl) _, ?_⟩
+      have hdsep := hd.1.sep plusMinus (Or.inl rfl) X
+      simp only [List.cons_append, List.nil_append, Int.add_zero, topAll, Bool.and_eq_true, Bool.or_eq_true]
+      have l0 : lvlOpen ' ' (lvlClose ' ' 0) = 0 := by decide
+      have l1 : lvlOpen '/' (lvlClose '/' 0) = 0 := by decide
+      rw [l0, l1, l0]
+      refine ⟨Or.inr ?_, Or.inr ?_, Or.inr ?_, hdsep⟩
+      · simp [noMatch, plusMinus, firstMatch, Matcher.run, List.isPrefixOf]
+      · exact sep_noMatch_head plusMinus (Or.inl rfl) '/' _ (by decide)
+      · rw [hdh]; exact sep_noMatch_space plusMinus (Or.inl rfl) c _ hc
+    · have := hn.2.append_mid [' ', '/', ' '] hd.2
+      simpa [Src.print] using this
   | sum neg first tail ihf iht =>
     intro k h; cases k <;> simp only [Src.ok, Bool.false_eq_true, Bool.and_eq_true] at h
-    have hf := ihf .term h.1
+    have hf := ihf .frac h.1
     have ht := iht .ttail h.2
     show Bal ((if neg then ['-'] else []) ++ first.print ++ tail.print)
     refine Bal.append (Bal.append ?_ hf.1.bal) ht.1
@@ -331,7 +475,7 @@ theorem print_facts (t : Src) : ∀ k, t.ok k = true → Facts k t := by
     exact ⟨Bal.nil, fun A hA => by simpa [Src.print] using hA⟩
   | tcons minus t tail iht ihtl =>
     intro k h; cases k <;> simp only [Src.ok, Bool.false_eq_true, Bool.and_eq_true] at h
-    have ht := iht .term h.1
+    have ht := iht .frac h.1
     have htl := ihtl .ttail h.2
     refine ⟨?_, ?_⟩
     · show Bal ([' ', if minus then '-' else '+', ' '] ++ t.print ++ tail.print)
